@@ -95,6 +95,38 @@ def shadow_user(n: int) -> int:
         return k + helper(k - 1)
     return helper(n)
 
+@guppy
+def leaf_a(x: int) -> int:
+    return x + 1
+
+@guppy
+def leaf_b(x: int) -> int:
+    return x * 2
+
+@guppy
+def leaf_c(x: int) -> int:
+    return x - 3
+
+@guppy
+def two_nested(x: int) -> int:
+    # two nested functions that pull in further definitions: the order in which the bodies are lowered must not depend on the session
+    def first(y: int) -> int:
+        return leaf_a(y)
+    def second(y: int) -> int:
+        return leaf_b(y)
+    return first(x) + second(x) + leaf_c(x)
+
+@guppy
+def generic_nested(x: int, k: int @comptime) -> int:
+    def helper2(y: int) -> int:
+        return y + 7
+    return helper2(x) + k
+
+@guppy
+def twice_mono(x: int) -> int:
+    # the enclosing function of a nested definition is monomorphized twice
+    return generic_nested(x, 1) + generic_nested(x, 2)
+
 @guppy.comptime
 def bad_traced(n: int) -> int:
     return undefined_thing + n
@@ -111,7 +143,7 @@ def uses_broken_struct(b: BrokenStruct) -> int:
 ORACLE = r'''
 import os, sys, json, re, subprocess, tempfile, importlib.util, shutil, hashlib
 
-TARGETS = ["helper", "loops", "structs", "nested", "quantum", "arrays", "uses_traced", "ident", "shadow_user"]
+TARGETS = ["helper", "loops", "structs", "nested", "quantum", "arrays", "uses_traced", "ident", "shadow_user", "two_nested", "twice_mono"]
 FAILING = ["broken_fn", "uses_broken_struct"]
 
 def load(d):
@@ -152,6 +184,7 @@ def histories(target):
         [("compile", "broken_fn"), ("compile", "uses_broken_struct")],
         [("check", "uses_broken_struct"), ("check", target), ("compile", "broken_fn")],
         [("compile", others[0]), ("check", "broken_fn"), ("compile", target), ("compile", others[-1])],
+        [("compile", target), ("compile", "two_nested"), ("compile", target), ("compile", "twice_mono"), ("compile", target), ("compile", "nested"), ("compile", target)],
     ]
     return hs
 
